@@ -23,13 +23,15 @@ OBLIGATIONS = ["multi_file_concat", "assignments_text_roundtrip_partial", "exten
                "domains_roundtrip", "variables_roundtrip", "constraints_roundtrip",
                "constraint_values_preserved", "agents_roundtrip", "routes_load_order_independent",
                "yaml_roundtrip", "multi_file_split", "yaml_roundtrip_files",
-               "default_route_guard_refuted", "unregistered_domain_guard_refuted"]
+               "default_route_guard_refuted", "unregistered_domain_guard_refuted",
+               "extensional_values_order_independent", "agents_roundtrip_any_key_order",
+               "yaml_roundtrip_any_key_order", "yaml_roundtrip_pipeline"]
 N_QUICK, N_THOROUGH = 400, 6000
 SHARD = 100
 PARALLEL = 1
 RULE = ("seeded random DCOPs (70 % assembled by filling the DCOP's dicts, 30 % through the public API "
         "add_variable / add_constraint / add_agents, which decides which domains are registered): 1-3 domains (int / str / mixed values, sizes 0-4, a few hostile ones: "
-        "equal str(), blanks, '|'), 1-5 variables with/without initial value, 0-4 constraints "
+        "equal str(), blanks, '|'; some with values differing only by case), 1-5 variables with/without initial value, 0-4 constraints "
         "(matrix, function-without-expression, expression) of arity 1-3, 0-4 agents with capacity, "
         "symmetric / one-sided / unknown-target routes, default and specific hosting costs; dumped "
         "and read back from a string, a str path, or 1-3 files (optionally an extra file "
@@ -84,6 +86,13 @@ def _gen_domain(rng, name):
     if len(vals) >= 2 and rng.random() < 0.03:
         vals[0] = 1
         vals[1] = "1"
+    if len(vals) >= 2 and rng.random() < 0.08:
+        # two distinct values whose str() differ only by case ("R" / "r")
+        strs = [x for x in vals if isinstance(x, str) and x.swapcase() != x and x.swapcase() not in vals]
+        if strs:
+            x = rng.choice(strs)
+            others = [i for i, y in enumerate(vals) if y != x]
+            vals[rng.choice(others)] = x.swapcase()
     return dict(name=name, type=rng.choice(TYPES), values=vals)
 
 
@@ -1070,6 +1079,14 @@ def shrink_candidates(c):
                 del c2["dcop"]["variables"][i]
                 for a in c2["dcop"]["agents"]:
                     a["hosting"] = [h for h in a["hosting"] if h[0] != v["name"]]
+                if d.get("build") == "api":     # the API registers the remaining variables' domains
+                    used = []
+                    for w in c2["dcop"]["variables"]:
+                        if w["domain"] not in used:
+                            used.append(w["domain"])
+                    c2["dcop"]["domains"] = [x for x in d["domains"] if x["name"] in used]
+                    c2["dcop"]["domains"].sort(key=lambda x: used.index(x["name"]))
+                    c2["dcop"]["registered"] = used
                 yield c2
         if c.get("override_agents"):
             c2 = copy.deepcopy(c)
